@@ -537,7 +537,8 @@ fn step_c18(m: &VModel, w: &mut VWorld, s: &VSt, a: &VAct, out: &mut StepOut) ->
             out.viol("C18:latest-snapshot-not-final-reserves", format!("snapshot {:?} vs reserves ({},{}) after {:?}", l, st.quote_asset_reserve, st.base_asset_reserve, a));
         }
     }
-    if snaps.len() != hist.len() {
+    // at most one snapshot per block with a trade (a block whose trades leave the reserves where they were needs none)
+    if snaps.len() > hist.len() {
         out.viol("C18:snapshot-count", format!("{} snapshots for {} blocks with trades (+instantiation) after {:?}", snaps.len(), hist.len(), a));
     }
     // TWAP over intervals shorter, equal and longer than the history
